@@ -21,6 +21,12 @@ CHECKS = {
  "C20": ("runtime monitor: encoder->decoder identity oracles on the exported MQ / T1 / 5-3 DWT / RCT layers (complete execution of short MQ sequences and short DWT signals, seeded sweeps of 64 T1 styles x block shapes)",
          "Held on every executed input: all (bit,context) sequences up to length 8 (quick) / 16 (thorough) over two contexts, random and adversarial MQ sequences up to 1e5 symbols, all 64 code-block styles x block shapes x orientations through EncodeLayered/DecodeLayeredWithMode, all 1-D 5/3 signals up to length 7/8 over {-2..2} for both parities, 2-D multilevel transforms with origin parity, RCT on [-8..8]^3 and random triples. One known finding (LAZY without TERMALL).",
          "Round trip only; the T1 decoder is driven the way jpeg2000/t2/tile_decoder.go drives it, with PassData.Rate as cumulative pass lengths.", "3/C20"),
+ "C04": ("runtime monitor: reversible single-tile encode->decode round trip oracle over executed (image, configuration) pairs: pairwise-style sweep of 10 configuration parameters on noise, size grids, code-block-boundary sizes, degenerate contents",
+         "Held on every executed configuration and image; reaches the ~1/256-per-packet coincidences (header ending in 0xFF, Lblock growth, empty bands) only through the number of noisy packets executed, which the evidence reports.",
+         "Self round trip through jpeg2000.Encoder / jpeg2000.Decoder.", "3/C04"),
+ "C19": ("runtime monitor: reversible multi-tile encode->decode round trip oracle over executed tile grids (every grid shape 1..8 x 1..8 with odd and even tile sizes, partial last tiles, tiles smaller than a code-block, rate allocation with final lossless layer)",
+         "Held on every executed tile grid, geometry and configuration; the witness of a violation names the tile and in-tile position of the first wrong sample.",
+         "Self round trip through jpeg2000.Encoder / jpeg2000.Decoder.", "3/C19"),
 }
 
 NOT_YET = {
